@@ -223,5 +223,13 @@ def run(ctx):
     for kind in AC_.ALL:
         for n_ in ("call_fn_unary", "call_fn_binary"):
             ctx.guarded(r, AK_.check_call_helper, kind, n_)
+    # building or simplifying a tape must not panic either: an uncommitted local label collides with the next
+    # builder's ("invalid forward relocation"), and a choice slot that some path leaves untouched is
+    # `Choice::Unknown`, which simplify() answers with a panic
+    r = ctx.rule("R7", "native builders commit their local labels; every path of a tracing choice clause records a choice", 21 + 52)
+    for kind in AC_.ALL:
+        ctx.guarded(r, AC_.check_labels, kind)
+    for kind in AC_.TRACING:
+        ctx.guarded(r, AC_.check_choice_protocol, kind)
     r = ctx.rule("R3f", "[resolved program] panic-capable MIR sites of the per-op data types are within the justified inventory", 60)
     ctx.guarded(r, FR.data_cone_panics, ctx)
